@@ -35,12 +35,20 @@ def expect_pair(rep, facts, rule, ident, ref_pair, assign=False, label=None, bod
                  {"tree": t}, where=H.where(b))
         return False
     N = norm.Normalizer("E")
+    # a list: the cited algorithm first, then other algorithms of the same paper whose proven bound is within the property's
+    alts = []
+    if isinstance(ref_pair, list):
+        ref_pair, alts = ref_pair[0], ref_pair[1:]
     exp = (N.norm(ref_pair[0]), N.norm(ref_pair[1]))
     ok = got[0] is exp[0] and got[1] is exp[1]
     if ok:
         rep.ok(rule, inst, detail="normal form equals reference", algebra="E",
                sample={"hi": got[0], "lo": got[1]})
         return True
+    for k_, (what_, alt_) in enumerate(alts):
+        if got[0] is N.norm(alt_[0]) and got[1] is N.norm(alt_[1]):
+            rep.ok(rule, inst, detail="normal form equals the accepted alternative: " + what_, algebra="E", sample={"hi": got[0], "lo": got[1]})
+            return True
     word = "hi" if got[0] is not exp[0] else "lo"
     d = norm.first_difference(got[0] if word == "hi" else got[1], exp[0] if word == "hi" else exp[1], word + "-word")
     rep.fail(rule, inst, "nonconforming:" + ident,
@@ -321,10 +329,10 @@ def check_C04(ctx, rep):
     p0, p1 = P(0), P(1)
     rt, rf = "&" + TF, "&f64"
     R = "R8"
-    expect_pair(rep, f, R, H.op_ident("Mul", rt, rf, "mul"), refs.DW_TIMES_FP(HI(p0), LO(p0), p1))
-    expect_pair(rep, f, R, H.op_ident("Mul", rf, rt, "mul"), refs.DW_TIMES_FP(HI(p1), LO(p1), p0))
+    expect_pair(rep, f, R, H.op_ident("Mul", rt, rf, "mul"), [refs.DW_TIMES_FP(HI(p0), LO(p0), p1), ("JMP 2017 Alg. 7 (DWTimesFP1, 1.5u^2 + 4u^3)", refs.DW_TIMES_FP1(HI(p0), LO(p0), p1))])
+    expect_pair(rep, f, R, H.op_ident("Mul", rf, rt, "mul"), [refs.DW_TIMES_FP(HI(p1), LO(p1), p0), ("JMP 2017 Alg. 7 (DWTimesFP1, 1.5u^2 + 4u^3)", refs.DW_TIMES_FP1(HI(p1), LO(p1), p0))])
     expect_pair(rep, f, R, H.op_ident("Mul", rt, rt, "mul"), refs.DW_TIMES_DW(HI(p0), LO(p0), HI(p1), LO(p1)))
-    expect_pair(rep, f, R, "<TwoFloat as core::ops::MulAssign<&f64>>::mul_assign", refs.DW_TIMES_FP(HI(p0), LO(p0), p1), assign=True)
+    expect_pair(rep, f, R, "<TwoFloat as core::ops::MulAssign<&f64>>::mul_assign", [refs.DW_TIMES_FP(HI(p0), LO(p0), p1), ("JMP 2017 Alg. 7 (DWTimesFP1, 1.5u^2 + 4u^3)", refs.DW_TIMES_FP1(HI(p0), LO(p0), p1))], assign=True)
     expect_pair(rep, f, R, "<TwoFloat as core::ops::MulAssign<&TwoFloat>>::mul_assign", refs.DW_TIMES_DW(HI(p0), LO(p0), HI(p1), LO(p1)), assign=True)
     rep.floor(R, len([o for o in rep.obl if o["rule"] == R]), 5, "mul bodies")
     check_wrappers(ctx, rep, f, ops=[("Mul", "mul")])
@@ -432,6 +440,14 @@ def check_C05(ctx, rep):
 
 # ------------------------------------------------------------------ C19
 
+def _same_decisions(t, exp):
+    """the same leaves under every outcome of the comparisons (`x < 0.0`, `match x.partial_cmp(&0.0)`, ... are one relation)"""
+    from . import dectree as D
+    try:
+        return D.equivalent(t, exp) is None
+    except RuntimeError:
+        return False
+
 def check_C19(ctx, rep):
     f = ctx.facts("A")
     N = norm.Normalizer("E")
@@ -462,7 +478,7 @@ def check_C19(ctx, rep):
         lt0 = mk("call", "core::cmp::PartialOrd::lt<TwoFloat,f64>", r, zero)
         gt0 = mk("call", "core::cmp::PartialOrd::gt<TwoFloat,f64>", c, zero)
         exp = ("if", lt0, ("if", gt0, ("leaf", OP("sub", TF, "f64", q, one), ()), ("leaf", OP("add", TF, "f64", q, one), ())), ("leaf", q, ()))
-        rep.check(t == exp, "R52", "TwoFloat::div_euclid", "div-euclid-table", "div_euclid does not follow the floor/ceil adjustment table: %s" % vg.show(t)[:500],
+        rep.check(t == exp or _same_decisions(t, exp), "R52", "TwoFloat::div_euclid", "div-euclid-table", "div_euclid does not follow the floor/ceil adjustment table: %s" % vg.show(t)[:500],
                   where=H.where(b), detail="q=trunc(a/b); r=a-q*b; r<0: b>0 ? q-1 : q+1; else q")
     b = f.get("TwoFloat::rem_euclid")
     if b is None:
@@ -473,7 +489,7 @@ def check_C19(ctx, rep):
         r = OP("rem", TF, TF, a, c)
         lt0 = mk("call", "core::cmp::PartialOrd::lt<TwoFloat,f64>", r, zero)
         exp = ("if", lt0, ("leaf", OP("add", TF, TF, r, mk("call", "TwoFloat::abs", c)), ()), ("leaf", r, ()))
-        rep.check(t == exp, "R52", "TwoFloat::rem_euclid", "rem-euclid-table", "rem_euclid is not (r = a %% b; r < 0 ? r + |b| : r): %s" % vg.show(t)[:500],
+        rep.check(t == exp or _same_decisions(t, exp), "R52", "TwoFloat::rem_euclid", "rem-euclid-table", "rem_euclid is not (r = a %% b; r < 0 ? r + |b| : r): %s" % vg.show(t)[:500],
                   where=H.where(b), detail="r=a%b; r<0 ? r+|b| : r")
     from .rules_c10 import check_delegation_subset
     check_delegation_subset(rep, f, {"rem_euclid", "div_euclid"}, rule="R52d")
